@@ -15,7 +15,9 @@ import (
 	"os"
 	"path/filepath"
 	"strings"
+	"sync/atomic"
 	"testing"
+	"time"
 
 	"github.com/sirupsen/logrus"
 	"pgregory.net/rapid"
@@ -27,7 +29,7 @@ import (
 	"github.com/dolthub/dolt/go/zzverif/vh"
 )
 
-const c02Rule = "2-4 separately opened stores on one directory (file-manifest stores that may all write, memtable 4KiB/64KiB/1MiB (every chunk is smaller than the memtable), manifest pre-created or not; or one journal writer plus read-only journal openers) run 8-30 (journal: 8-16) drawn steps: put(1-4 chunks), commit(newRoot in {fresh chunk put on this handle, an older root, ==last, never-put address}, last in {handle's cached root, true persisted root, older root, zero}), rebase, close+reopen, fresh open+check. Oracle: sequential CAS register (root, committed chunk set); commit==true requires last==persisted root just before; after every commit a fresh open must see the model root and read every committed chunk byte for byte; false/error must leave the fresh view unchanged; a handle nobody has published past must succeed when last==persisted root; Root() of a handle is always a root published at or after its last sync. Non-trivial: the history has >=1 failed CAS (handle used its own cached root as last) caused by another handle's successful publish, and >=1 close+reopen between two successful commits; distinct by the hash of (configuration, step sequence with outcomes)."
+const c02Rule = "2-4 separately opened stores on one directory (file-manifest stores that may all write, memtable 4KiB/64KiB/1MiB (every chunk is smaller than the memtable), manifest pre-created or not; or one journal writer plus read-only journal openers) run 8-30 (journal: 8-16) drawn steps: put(1-4 chunks), commit(newRoot in {fresh chunk put on this handle, an older root, ==last, never-put address}, last in {handle's cached root, true persisted root, older root, zero}), rebase, close+reopen, fresh open+check, ConjoinTableFiles of 2..n upstream tables on a possibly stale file-manifest handle, and (conjoin threshold maxTables in {2,3,4,1024}) the automatic conjoin a commit starts, parked at the repository's ConjoinAll test hook and landed at a drawn later step. Oracle: a conjoin never changes the persisted root or any committed chunk (fresh open after it lands); sequential CAS register (root, committed chunk set); commit==true requires last==persisted root just before; after every commit a fresh open must see the model root and read every committed chunk byte for byte; false/error must leave the fresh view unchanged; a handle nobody has published past must succeed when last==persisted root; Root() of a handle is always a root published at or after its last sync. Non-trivial: the history has >=1 failed CAS (handle used its own cached root as last) caused by another handle's successful publish, and >=1 close+reopen between two successful commits; distinct by the hash of (configuration, step sequence with outcomes)."
 
 type c02Version struct {
 	root hash.Hash
@@ -58,6 +60,9 @@ type c02Handle struct {
 	pendOrder []hash.Hash
 	novel     bool // a Put happened since the last successful commit / reopen
 	synced    int  // model version at the last open / rebase / own successful commit
+	maxTables int  // conjoin threshold of a file-manifest store
+	gate      chan struct{}
+	gateOn    atomic.Bool // an automatic conjoin of this store parks in ConjoinAll until released
 }
 
 func (h *c02Handle) clearPending() {
@@ -67,6 +72,7 @@ func (h *c02Handle) clearPending() {
 
 type c02Case struct {
 	ctx     context.Context
+	t       *testing.T
 	rt      *rapid.T
 	dir     string
 	journal bool
@@ -95,7 +101,20 @@ func (c *c02Case) open(h *c02Handle) {
 			_, err = h.st.Root(c.ctx)
 		}
 	} else {
-		h.st, err = verifMOpenFile(c.ctx, c.dir, h.memSz, 1024)
+		h.st, err = verifMOpenFile(c.ctx, c.dir, h.memSz, h.maxTables)
+		if err == nil {
+			// The repository's own hook in fsTablePersister.ConjoinAll (after the conjoined file
+			// is renamed into place, before it is opened) lets the schedule decide when the
+			// automatic conjoin started by a commit lands in the manifest.
+			h.gate = make(chan struct{})
+			h.gateOn.Store(true)
+			gate, on := h.gate, &h.gateOn
+			h.st.persister.(*fsTablePersister)._testFtpConjoinAfterRenameHook = func() {
+				if on.Load() {
+					<-gate
+				}
+			}
+		}
 	}
 	if err != nil {
 		c.rt.Fatalf("open handle %d (%s): %v  [history: %s]", h.idx, h.kind, err, strings.Join(c.ops, " "))
@@ -108,10 +127,88 @@ func (c *c02Case) open(h *c02Handle) {
 func (c *c02Case) closeAll() {
 	for _, h := range c.hs {
 		if h.st != nil {
+			c.release(h)
 			_ = h.st.Close()
 			h.st = nil
 		}
 	}
+}
+
+// conjoinPending reports whether a background conjoin of h is in flight.
+func (c *c02Case) conjoinPending(h *c02Handle) bool {
+	if h.kind != "file" || h.st == nil {
+		return false
+	}
+	h.st.mu.RLock()
+	defer h.st.mu.RUnlock()
+	return h.st.conjoinOp != nil
+}
+
+// release lets a parked automatic conjoin of h run to completion (it lands in the manifest
+// through finalizeConjoin) and waits for it. Returns whether one was in flight.
+func (c *c02Case) release(h *c02Handle) bool {
+	if !c.conjoinPending(h) {
+		return false
+	}
+	deadline := time.Now().Add(60 * time.Second)
+	for c.conjoinPending(h) {
+		select {
+		case h.gate <- struct{}{}:
+		default:
+			time.Sleep(100 * time.Microsecond)
+		}
+		if time.Now().After(deadline) {
+			vh.Inconclusive(c.t, "background conjoin of handle %d did not finish within 60 s", h.idx)
+		}
+	}
+	return true
+}
+
+// stepSettle: the automatic conjoin of h, if one is parked, lands now. A conjoin only swaps
+// table files: the persisted root and every committed chunk must be untouched.
+func (c *c02Case) stepSettle(h *c02Handle) {
+	if !c.release(h) {
+		c.op("s%d(none)", h.idx)
+		return
+	}
+	c.op("s%d", h.idx)
+	c.classes["auto_conjoin_landed"] = true
+	if h.synced < c.m.cur() {
+		c.classes["auto_conjoin_landed_on_stale_handle"] = true
+	}
+	c.handleRoot(h)
+	c.freshCheck(fmt.Sprintf("the automatic conjoin of handle %d landed (step %d)", h.idx, len(c.ops)))
+}
+
+// stepConjoin: ConjoinTableFiles of 2..n of the tables h believes are upstream; h may be stale.
+func (c *c02Case) stepConjoin(h *c02Handle) {
+	c.release(h)
+	specs := h.st.upstream.specs
+	if len(specs) < 2 {
+		c.op("j%d(skip)", h.idx)
+		return
+	}
+	n := rapid.IntRange(2, len(specs)).Draw(c.rt, "conjoinN")
+	first := rapid.IntRange(0, len(specs)-n).Draw(c.rt, "conjoinFirst")
+	var ids []hash.Hash
+	for _, sp := range specs[first : first+n] {
+		ids = append(ids, sp.name)
+	}
+	stale := h.synced < c.m.cur()
+	h.gateOn.Store(false)
+	_, err := h.st.ConjoinTableFiles(c.ctx, ids)
+	h.gateOn.Store(true)
+	res := "T"
+	if err != nil {
+		res = "E"
+	}
+	c.op("j%d(%d of %d,stale=%v)=%s", h.idx, n, len(specs), stale, res)
+	c.classes["conjoin="+res] = true
+	if stale && err == nil {
+		c.classes["conjoin_on_stale_handle"] = true
+	}
+	c.handleRoot(h)
+	c.freshCheck(fmt.Sprintf("ConjoinTableFiles by handle %d (step %d)", h.idx, len(c.ops)))
 }
 
 // checkView: st must show the model's root and every committed chunk with the model's bytes.
@@ -324,7 +421,7 @@ func (c *c02Case) stepCommit(h *c02Handle) {
 func c02RunCase(t *testing.T, rt *rapid.T, rec *vh.Recorder) {
 	dir, rm := vh.ScratchDir(t, "c02-")
 	defer rm()
-	c := &c02Case{ctx: context.Background(), rt: rt, dir: dir, classes: map[string]bool{},
+	c := &c02Case{ctx: context.Background(), t: t, rt: rt, dir: dir, classes: map[string]bool{},
 		m:   &c02Model{versions: []c02Version{{by: -1}}, committed: map[hash.Hash][]byte{}},
 		gen: &verifMChunkGen{salt: "c02"}}
 	defer c.closeAll()
@@ -356,6 +453,7 @@ func c02RunCase(t *testing.T, rt *rapid.T, rec *vh.Recorder) {
 			}
 		} else {
 			h.memSz = rapid.SampledFrom([]uint64{1 << 12, 1 << 16, 1 << 20}).Draw(rt, fmt.Sprintf("memSz%d", i))
+			h.maxTables = rapid.SampledFrom([]int{2, 3, 4, 1024}).Draw(rt, fmt.Sprintf("maxTables%d", i))
 		}
 		c.hs = append(c.hs, h)
 		c.open(h)
@@ -371,7 +469,7 @@ func c02RunCase(t *testing.T, rt *rapid.T, rec *vh.Recorder) {
 	}
 	var ms []string
 	for _, h := range c.hs {
-		ms = append(ms, fmt.Sprintf("%s/%d", h.kind, h.memSz))
+		ms = append(ms, fmt.Sprintf("%s/%d/mt%d", h.kind, h.memSz, h.maxTables))
 	}
 	c.op("cfg=%s handles=%s |", cfg, strings.Join(ms, ","))
 
@@ -385,7 +483,7 @@ func c02RunCase(t *testing.T, rt *rapid.T, rec *vh.Recorder) {
 		if c.journal && h.kind == "jr" && rapid.IntRange(0, 2).Draw(rt, "preferWriter") > 0 {
 			h = c.hs[0] // keep most of the journal history on the writer
 		}
-		switch a := rapid.IntRange(0, 19).Draw(rt, "action"); {
+		switch a := rapid.IntRange(0, 23).Draw(rt, "action"); {
 		case a < 5: // put
 			cnt := rapid.IntRange(1, 4).Draw(rt, "nput")
 			for i := 0; i < cnt; i++ {
@@ -414,6 +512,10 @@ func c02RunCase(t *testing.T, rt *rapid.T, rec *vh.Recorder) {
 			}
 			c.op("b%d", h.idx)
 		case a < 18: // close + reopen this handle
+			if c.release(h) {
+				c.op("s%d", h.idx)
+				c.freshCheck(fmt.Sprintf("the automatic conjoin of handle %d landed before its close", h.idx))
+			}
 			if err := h.st.Close(); err != nil {
 				// Close reporting an error is not part of the property; what the directory
 				// holds afterwards is (checked by the reopen below and by every fresh open)
@@ -427,6 +529,10 @@ func c02RunCase(t *testing.T, rt *rapid.T, rec *vh.Recorder) {
 			if c.successes > 0 {
 				c.reopenAfterCommit = true
 			}
+		case a < 21 && h.kind == "file":
+			c.stepConjoin(h)
+		case a < 23 && h.kind == "file":
+			c.stepSettle(h)
 		default:
 			c.op("o")
 			c.freshCheck("explicit check")
